@@ -17,7 +17,7 @@ EXPLANATION = ('the literal gamma matrices and every branch expression of Grid_g
 LEVEL_TEXT = ('exhaustive over finite tables: Clifford algebra, hermiticity, gamma5 = product and anticommutation (all index pairs), all 16 Grid tags against the meaning of their names, '
               'epsilon tensors on every tuple of both index windows (and rejection outside), kn derivative identity for orders 0..8, provenance of re-exports. '
               'Numerical accuracy of scipy\'s Bessel functions is not decided.')
-TECHNIQUE = 'constant folding of literal tables into exact sympy matrices; exhaustive evaluation of extracted expressions; symbolic Bessel derivative identity'
+TECHNIQUE = 'constant folding of literal tables into exact sympy matrices; per-tag abstract interpretation of the tag table with object-identity tracking of module-level matrices; exhaustive evaluation of extracted index functions; symbolic Bessel derivative identity'
 
 AXES = ['X', 'Y', 'Z', 'T']
 
